@@ -4,6 +4,7 @@ use std::io::{BufRead, Write};
 use std::panic::{catch_unwind, AssertUnwindSafe};
 
 mod c10;
+mod c17;
 
 fn cps_to_string(v: &Value) -> String {
     match v {
@@ -33,6 +34,7 @@ fn main() {
         let case: Value = serde_json::from_str(&line).expect("json case");
         let res = catch_unwind(AssertUnwindSafe(|| match prop.as_str() {
             "c10" => c10::run(&case),
+            "c17lex" => c17::lex(&case),
             _ => json!({"error": "unknown property"}),
         }));
         let out = match res {
